@@ -30,20 +30,62 @@ def kind_of(name):
     return None
 
 
-def dispatch_classes(fi, var):
-    """class names tested on ``var`` in if/elif chains of fi with the attr called in each branch."""
+def dispatch_classes(fi, var, prog=None):
+    """class name -> the self-method that receives ``var`` when it is an instance of that class.  Decided by path
+    enumeration (vf/dispatch.py) over the classes the function tests ``var`` against, so the shape of the chain
+    (elif, nested else/if, negated tests with swapped branches) does not matter."""
     out = {}
+    # the dispatched variable is found by use (the name most often class-tested in if-tests), the given name is only a hint
+    from collections import Counter
+    cnt = Counter()
+    tested = {}
     for n in own_nodes(fi.node):
-        if isinstance(n, ast.If):
-            for names, _ in shapes.class_tests(n.test, var):
-                callee = None
-                for st in n.body:
-                    for x in ast.walk(st):
-                        if isinstance(x, ast.Call) and isinstance(x.func, ast.Attribute) and isinstance(x.func.value, ast.Name) and x.func.value.id == "self":
-                            callee = callee or x.func.attr
-                for nm in names:
-                    out[nm] = callee
+        if isinstance(n, (ast.If, ast.IfExp)):
+            for x in ast.walk(n.test):
+                if isinstance(x, ast.Call) and isinstance(x.func, ast.Name) and x.func.id == "isinstance" and len(x.args) == 2 and isinstance(x.args[0], ast.Name):
+                    cnt[x.args[0].id] += 1
+                    tested.setdefault(x.args[0].id, set()).update(shapes.class_names_in(x.args[1]))
+    if cnt and cnt.get(var, 0) == 0:
+        var = cnt.most_common(1)[0][0]
+    if prog is None:
+        prog = _PROG[0]
+    from .. import dispatch, boolx
+    hier = _HIER.get(id(prog))
+    if hier is None:
+        hier = _HIER[id(prog)] = dispatch.Hierarchy(prog)
+    for k in sorted(tested.get(var, ())):
+        if k not in hier.anc:
+            continue
+        try:
+            exits = dispatch.executions(hier, fi, var, k)
+        except AnalysisError:
+            raise
+        must = None
+        order = []
+        for kind, st, env in exits:
+            if kind == "raise":
+                continue
+            names = []
+            for c in env.get(boolx.CALLS, ()):
+                if isinstance(c.func, ast.Attribute) and isinstance(c.func.value, ast.Name) and c.func.value.id == "self" \
+                        and any(isinstance(a, ast.Name) and a.id == var for a in c.args):
+                    names.append(c.func.attr)
+            if not names:
+                continue      # an execution that hands the value to no method (cache hit, early return)
+            order = order or names
+            must = set(names) if must is None else must & set(names)
+        if must is None:
+            if all(kind == "raise" for kind, _s, _e in exits):
+                continue      # every execution raises for this class: not handled
+            out[k] = None
+            continue
+        pick = [nm for nm in order if nm in must]
+        out[k] = pick[0] if pick else None
     return out
+
+
+_PROG = [None]
+_HIER = {}
 
 
 def iteration_filters(root):
@@ -135,6 +177,7 @@ def registry_conservation(prog, run, r):
 
 
 def check(prog, run):
+    _PROG[0] = prog
     b = prog.get_class(BUILDER, "ASTTypeBuilder")
 
     # ---- D1 dispatch exhaustiveness over the six kinds
@@ -241,18 +284,34 @@ def check(prog, run):
         run.looked_at(f)
         param = f.params[1]
         structural = {}
-        for n in own_nodes(f.node):
-            if isinstance(n, ast.If):
-                for names, _ in shapes.class_tests(n.test, param):
-                    for nm in names:
-                        if nm in ("ListType", "NonNullType"):
-                            # the branch must construct the same wrapper around a recursive call on <param>.type
-                            txt = " ".join(ast.unparse(ast.Module(body=n.body, type_ignores=[])).split())
-                            rec = "%s(" % f.name
-                            ok = ("%s(" % nm) in txt and rec in txt and (".type" in txt)
-                            other = "NonNullType(" if nm == "ListType" else "ListType("
-                            swapped = other in txt and ("%s(" % nm) not in txt
-                            structural[nm] = (ok, swapped)
+        # path form: what the function returns when its argument is exactly a ListType / NonNullType
+        from .. import dispatch
+        from ..canon import Canon
+        hier = _HIER.get(id(prog)) or _HIER.setdefault(id(prog), dispatch.Hierarchy(prog))
+        fcn = Canon(f.node)
+        tested = {nm for n in own_nodes(f.node) if isinstance(n, (ast.If, ast.IfExp, ast.While)) for names, _ in shapes.class_tests(n.test, param) for nm in names}
+        for nm in ("ListType", "NonNullType"):
+            if nm not in tested:
+                continue
+            oks, swaps = [], []
+            for kind, st, env in dispatch.executions(hier, f, param, nm):
+                if kind != "return" or st.value is None:
+                    if kind != "raise":
+                        oks.append(False)
+                    continue
+                atoms = {a: v for a, v in env.items() if a not in boolx.META}
+                v = boolx.path_expand(env.get(boolx.STMTS, ()), st, st.value, atoms)
+                if isinstance(v, ast.Subscript) and "cache" in ast.unparse(v.value):
+                    continue      # cache hit: whatever an earlier identical call built
+                if isinstance(v, ast.Constant) and v.value is None:
+                    continue      # the function may give up on the type (healing drops unknown types)
+                txt = " ".join(ast.unparse(v).split())
+                other = "NonNullType" if nm == "ListType" else "ListType"
+                built = txt.startswith(nm + "(") or txt.startswith("cast(") and (nm + "(") in txt
+                oks.append(built and ("%s(" % f.name) in txt and ("%s.type" % param) in txt)
+                swaps.append(txt.startswith(other + "("))
+            if oks:
+                structural[nm] = (all(oks), any(swaps))
         peel = [n for n in own_nodes(f.node) if isinstance(n, ast.While) and "ListType" in ast.unparse(n.test) and "NonNullType" in ast.unparse(n.test)]
         r.instance("%s (%s): structural branches %s, peel loops %d" % (f.qualname, label, {k: v[0] for k, v in structural.items()}, len(peel)))
         if peel:
